@@ -52,6 +52,8 @@ SUM, PROD, NULL = OpM("sum"), OpM("prod"), OpM("null")
 class Term:
     """abstract operand / intermediate result: ordered input names and env -> Poly"""
 
+    bound = {}
+
     def __init__(self, names, fn, label):
         self.inputs = OrderedDict((n, Dm()) for n in names)
         self.input_vars = frozenset(VarM(n) for n in names)
@@ -269,3 +271,150 @@ class ApplyOptimizer(Contract):
         opt = ("prioritized", "optimize_base", "caller")
         exp_log = [("enter", "unfold"), ("reinterpret", "X", "unfold"), ("exit", "unfold"), ("enter", opt), ("reinterpret", ("re", "unfold", "X"), opt), ("exit", opt)]
         return [("unfold_then_optimize_over_the_callers_interpretation", ctx.log == exp_log and result == ("re", opt, ("re", "unfold", "X")) and ctx.stack == ["caller"])]
+
+
+# ==================================================================================================
+# C08 / C05: one unfolding step with binders that clash -- value preservation with NAMED bound variables
+# ==================================================================================================
+class ConP:
+    """Contraction with named bound variables over the free semiring: the value at an environment is the red_op-reduction over
+    its OWN reduced variables (shadowing any outer variable of the same name) of the bin_op-product of its terms"""
+
+    def __init__(self, red_op, bin_op, reduced_vars, *terms):
+        if len(terms) == 1 and isinstance(terms[0], tuple):
+            terms = terms[0]
+        self.red_op, self.bin_op, self.terms = red_op, bin_op, tuple(terms)
+        self.reduced_vars = frozenset(v if isinstance(v, VarM) else VarM(v) for v in reduced_vars)
+        self.bound = {v.name: Dm() for v in self.reduced_vars}
+        self.inputs = OrderedDict()
+        for t in self.terms:
+            for k_, d in t.inputs.items():
+                if k_ not in self.bound:
+                    self.inputs.setdefault(k_, d)
+        self.input_vars = frozenset(VarM(n) for n in self.inputs)
+
+    def at(self, env):
+        names = sorted(self.bound)
+        acc = None
+        for vals in itertools.product(range(SIZE), repeat=len(names)):
+            e = dict(env)
+            e.update(zip(names, vals))
+            v = None
+            for t in self.terms:
+                tv = t.at({k_: e[k_] for k_ in t.inputs})
+                v = tv if v is None else (v * tv if self.bin_op is PROD else v + tv)
+            acc = v if acc is None else (acc + v if self.red_op is SUM else acc * v)
+        return acc
+
+    def reduce(self, op, rvars):
+        rvars = frozenset(rvars)
+        if not rvars:
+            return self
+        return ConP(op, NULL, rvars, self)
+
+    def _alpha_convert(self, alpha_subs):
+        ren = dict(alpha_subs)
+        rv = frozenset(VarM(ren.get(v.name, v.name)) for v in self.reduced_vars)
+        return self.red_op, self.bin_op, rv, tuple(rename_free(t, ren) for t in self.terms)
+
+
+def rename_free(t, ren):
+    """rename FREE occurrences of names (a nested binder of the same name shadows)"""
+    if isinstance(t, ConP):
+        inner = {k_: v for k_, v in ren.items() if k_ not in t.bound}
+        if not any(k_ in t.inputs for k_ in inner):
+            return t
+        return ConP(t.red_op, t.bin_op, t.reduced_vars, *[rename_free(u, inner) for u in t.terms])
+    if not any(k_ in t.inputs for k_ in ren):
+        return t
+    names = [ren.get(k_, k_) for k_ in t.inputs]
+    back = {ren.get(k_, k_): k_ for k_ in t.inputs}
+    src = t
+    return Term(names, lambda env: src.at({back[k_]: env[k_] for k_ in back}), t.label + "'")
+
+
+@register
+class UnfoldSharedBinders(Contract):
+    """optimizer.unfold_contraction_generic_tuple -- ONE unfolding step on operands whose bound names clash, read with named
+    binders over the free commutative semiring (every tensor entry an indeterminate): the rule's result denotes, at every point
+    of the free inputs, the same polynomial as Contraction(red_op, bin_op, reduced_vars, terms) -- in particular when the same
+    (cons-hashed) reduction occurs twice among the operands (x * x with x = sum_j f[j]) and when a nested reduction binds a
+    name that is free in a sibling (the second step of the same derivation): pulling the inner reduction out over the sibling
+    must not identify the two j's ((sum_j f[j])^2 is not sum_j f[j]^2 -- the repaired defect).
+    structure bound: 2..3 operands over leaves f[j], g[j,k], nested sum-reductions over j, outer reduction over j, k or none."""
+
+    props = ("C08", "C05", "C02")
+    file = "funsor/optimizer.py"
+    qualname = "unfold_contraction_generic_tuple"
+    total = True
+    mutants = (
+        ("clashing binders are not renamed (the pinned-tree defect)", "        if clash:\n            v = reflect.interpret(Contraction, *v._alpha_convert(clash))\n", ""),
+        ("only names bound by siblings count as taken", "*(frozenset(t.inputs) | frozenset(t.bound) for t in terms[:i] + terms[i + 1 :])", "*(frozenset(t.bound) for t in terms[:i] + terms[i + 1 :])"),
+    )
+
+    def cases(self):
+        f = leaf(0, ("j",))
+        g = leaf(1, ("j", "k"))
+        h = leaf(2, ("k",))
+        x = ConP(SUM, NULL, ["j"], f)  # sum_j f[j]
+        y = ConP(SUM, NULL, ["j"], g)  # sum_j g[j,k]
+        z = ConP(SUM, PROD, ["j"], f, g)  # sum_j f[j] g[j,k]
+        out = OrderedDict()
+        out["x*x"] = (NULL, PROD, [], (x, x))
+        out["x*x*x"] = (NULL, PROD, [], (x, x, x))
+        out["x*y"] = (NULL, PROD, [], (x, y))
+        out["sum_j f[j]*x  (second step of x*x)"] = (SUM, PROD, ["j"], (f, x))
+        out["sum_j g[j,k]*y"] = (SUM, PROD, ["j"], (g, y))
+        out["sum_k h[k]*y*y"] = (SUM, PROD, ["k"], (h, y, y))
+        out["y*z"] = (NULL, PROD, [], (y, z))
+        out["sum_j f[j]*z"] = (SUM, PROD, ["j"], (f, z))
+        out["h*x (no clash)"] = (NULL, PROD, [], (h, x))
+        return out
+
+    def structures(self, tier):
+        for label in self.cases():
+            yield label, label
+
+    def build(self, p, label):
+        r, b, V, ts = self.cases()[label]
+        counter = itertools.count()
+
+        class Ops:
+            null = NULL
+
+        class Interp:
+            @staticmethod
+            def gensym(prefix):
+                return "%s_%d" % (prefix, next(counter))
+
+        class Reflect:
+            @staticmethod
+            def interpret(cls, *args):
+                return cls(*args)
+
+        class ConCls:
+            @staticmethod
+            def __sym_instancecheck__(x):
+                return isinstance(x, ConP)
+
+            def __call__(self, *a):
+                return ConP(*a)
+
+        ns = dict(ops=Ops, Contraction=ConCls(), DISTRIBUTIVE_OPS=frozenset([(SUM, PROD)]), interpreter=Interp, reflect=Reflect, isinstance=core.sisinstance, enumerate=enumerate, tuple=tuple, frozenset=frozenset)
+        Vs = frozenset(VarM(n) for n in V)
+        return Ctx(args=(r, b, Vs, tuple(ts)), namespace=ns, orig=ConP(r, b, Vs, *ts), label=label)
+
+    def ensures(self, ctx, result):
+        if result is None:
+            return [("a_nested_contraction_is_unfolded", False)]
+        orig = ctx.orig
+        ok_inputs = set(result.inputs) == set(orig.inputs)
+        same = ok_inputs
+        if ok_inputs:
+            names = list(orig.inputs)
+            for vals in itertools.product(range(SIZE), repeat=len(names)):
+                env = dict(zip(names, vals))
+                if not (result.at(env) == orig.at(env)):
+                    same = False
+                    break
+        return [("free_inputs_unchanged", ok_inputs), ("same_value_at_every_point_for_all_contents", bool(same))]
